@@ -286,7 +286,7 @@ where
     ensure!(local_values.len() == S::COLUMNS);
     ensure!(next_values.len() == S::COLUMNS);
     ensure!(if let Some(quotient_polys) = quotient_polys {
-        quotient_polys.len() == stark.num_quotient_polys(config)
+        !quotient_polys.is_empty() && quotient_polys.len() == stark.num_quotient_polys(config)
     } else {
         stark.num_quotient_polys(config) == 0
     });
